@@ -137,7 +137,13 @@ def specTri (inp : Tri Rat) (inpWords : List String) (outs : List (Tri Rat)) (ou
     let outVerts := outs.flatMap triVerts
     let outside := outVerts.findSome? fun v =>
       let worst := (Spec.ClipArea.dists (toP4 v.pos)).foldl ratMax 0
-      if worst > scale / 10000 then some ("vertex-outside-frustum", s!"output vertex violates a frustum plane by {fmtQ worst}") else none
+      -- (i) against the size of the input triangle; (ii) against the vertex's OWN w — what the excess means on
+      -- screen (0.1 % of w is a pixel on a 2000-pixel viewport) — with room for the f32 rounding of a created
+      -- vertex, which is a few ulps of the LARGEST coordinate involved (5e-7·scale)
+      if worst > scale / 10000 then some ("vertex-outside-frustum", s!"output vertex violates a frustum plane by {fmtQ worst}")
+      else if v.pos.w > 0 && worst > v.pos.w / 1000 + scale / 2000000 then
+        some ("vertex-outside-frustum", s!"output vertex violates a frustum plane by {fmtQ worst}, {fmtQ (worst / v.pos.w)} of its own w")
+      else none
     if outside.isSome then outside
     else if cond < 1/10000 then none   -- sliver/degenerate input: barycentric accounting ill-conditioned
     else
